@@ -4,16 +4,19 @@ in coq/Reflect/*.v."""
 
 HEAD = """From Coq Require Import ZArith List String Bool.
 Import ListNotations.
-From MV Require Import Symmetry.Table Symmetry.Affine Reflect.GroupChecks Reflect.NormChecks.
+From MV Require Import Symmetry.Table Symmetry.Affine Reflect.GroupChecks Reflect.NormChecks Reflect.GroundChecks.
 """
 
 G_CLAUSES = [("letters_ok", "chk_letters SG.table"),
              ("exprs_ok", "chk_exprs SG.table"),
              ("group_ok", "chk_group SG.table (ref_of (sg_num SG.table))"),
              ("orbits_ok", "chk_orbits SG.table"),
-             ("info_ok", "chk_info SG.table")]
+             ("info_ok", "chk_info SG.table"),
+             ("isometries_ok", "chk_group_isometries SG.table")]
 N_CLAUSES = [("norms_ok", "chk_norms SG.table CERTS.certs"),
-             ("proper_perms_ok", "chk_proper_perms_closed SG.table")]
+             ("proper_perms_ok", "chk_proper_perms_closed SG.table"),
+             ("perm_inverses_ok", "chk_perm_inverses SG.table"),
+             ("letter_codes_ok", "chk_letter_codes SG.table")]
 
 
 def chkg_text(sg):
@@ -51,6 +54,9 @@ def all_text():
     t += forall("all_info_ok", "chk_info t", "ChkG", "info_ok")
     t += forall("all_norms_ok", "chk_norms t (certs_of (sg_num t))", "ChkN", "norms_ok")
     t += forall("all_proper_perms_ok", "chk_proper_perms_closed t", "ChkN", "proper_perms_ok")
+    t += forall("all_isometries_ok", "chk_group_isometries t", "ChkG", "isometries_ok")
+    t += forall("all_perm_inverses_ok", "chk_perm_inverses t", "ChkN", "perm_inverses_ok")
+    t += forall("all_letter_codes_ok", "chk_letter_codes t", "ChkN", "letter_codes_ok")
     t += "Lemma tables_numbered : map sg_num tables = map Z.of_nat (seq 1 230).\nProof. vm_compute. reflexivity. Qed.\n"
     return t
 
